@@ -19,14 +19,14 @@ package rlp
 // raw.go
 
 //@ func readSize
-//@   property C08
+//@   property C07 C08
 //@   ensures [canon] result1 == nil ==> 1 <= slen && slen <= 8 && uint64(slen) <= uint64(len(b))
 //@        && result0 == rlpBe(b, uint64(slen)) && result0 >= 56 && b[0] != 0
 //@   ensures [minimal] result1 == nil ==> rlpNbytes(result0) == uint64(slen)
 //@   modifies nothing
 
 //@ func readKind
-//@   property C08
+//@   property C07 C08
 //@   ensures [bounds] err == nil ==> wide(tagsize) + wide(contentsize) <= wide(uint64(len(buf)))
 //@   ensures [byte]   err == nil && k == Byte ==> tagsize == 0 && contentsize == 1 && buf[0] < 128
 //@   ensures [canon]  err == nil && k != Byte ==> (k == String || k == List) && rlpHeadOK(buf, k, tagsize, contentsize)
@@ -183,7 +183,7 @@ package rlp
 //@   modifies nothing
 
 //@ func decodeBigInt
-//@   property C08
+//@   property C07 C08
 //@   requires s != nil && ErrCanonInt != nil
 //@   requires [table!init] reflBigPtr(val)
 //@   ensures [canon] result == nil ==> @select(ghost(slen), ref(s)) == 0 || @select(ghost(sfirst), ref(s)) != 0
@@ -217,7 +217,7 @@ package rlp
 //@   modifies *s, elems(buf)
 
 //@ func Stream.uint
-//@   property C08
+//@   property C07 C08
 //@   requires s != nil
 //@   ensures [armed] result1 == nil ==> s.kind == 0 - 1
 //@   # a fixed-width integer: the decoded value fits the width asked for
@@ -227,7 +227,7 @@ package rlp
 // decodeUint hands the stream reader the width of the TARGET type: what it stores fits that width, so nothing is
 // truncated silently and an over-wide (non-canonical for the type) integer is rejected.
 //@ func decodeUint
-//@   property C08
+//@   property C07 C08
 //@   requires s != nil
 //@   ensures [width] result == nil && 8 <= typeBits(reflTypeOf(val)) && typeBits(reflTypeOf(val)) < 64 ==> ghost(lastsetuint) >> uint64(typeBits(reflTypeOf(val))) == 0
 //@   modifies *s, ghost(lastsetuint), ghost(lastkind)
